@@ -34,8 +34,9 @@ KW = {"initial": "initial_state_dist", "actions": "actions", "next": "next_state
       "absorbing": "is_absorbing", "state_list": "state_list", "action_list": "action_list"}
 BASE = "INIT Init\nNEXT Next\nCHECK_DEADLOCK FALSE\nINVARIANT Emit\nINVARIANT InstancesWellFormed\n"
 INVS = {
-    "aug": ["AugPreserved", "AugOverridden", "AugMatchesOracle", "AugOrder", "ViewsOfDerived"],
-    "plan": ["AugPreserved", "AugOverridden", "AugMatchesOracle", "AugOrder", "ViewsOfDerived", "SubTaskSound", "PlanOracleSound"],
+    "aug": ["AugPreserved", "AugOverridden", "AugMatchesOracle", "AugOrder", "ViewsOfDerived", "DerivedIsolated"],
+    "plan": ["AugPreserved", "AugOverridden", "AugMatchesOracle", "AugOrder", "ViewsOfDerived", "DerivedIsolated", "SubTaskSound",
+             "PlanOracleSound"],
     "opt": ["OptVerdictSound", "OptFirstTerminal", "OptWithinLimit", "OptReturnExact", "OptStepsFollowModel"],
     "trace": ["OptWithinLimit", "OptReturnExact", "OptStepsFollowModel", "TraceTally"],
 }
@@ -399,7 +400,18 @@ def make_aug_cases(rng, n, tier):
         if rep["kind"] == "subclass_inst":
             rep["gclass"] = rng.choice([g for g in [(1, 2), (3, 4), (1, 1)] if F(*g) != F(GN, GD)])
         m["ov"] = rand_override(rng, m)
-        cases.append({"m": m, "rep": rep, "ovrs": "all", "warm": rng.choice(WARMS)})
+        # the second MDP derived while the first is alive: Quick bases share msdm's class, so another base instance
+        # (other dynamics, other discount) is used; locally defined classes are per base, so the same base is
+        # derived again with other override values
+        if rep["kind"] in ("quick", "nontab"):
+            g2 = rng.choice([g for g in [(1, 2), (3, 4), (9, 10), (1, 1)] if F(*g) != F(GN, GD)])
+            sm = gen.rand_mdp(rng, n_na=m["N"] - sum(m["abs"]), n_abs=sum(m["abs"]), K=m["K"], PD=m["PD"], GN=g2[0], GD=g2[1],
+                              rewards=(-3, -1, 0, 2, 3), ID=rng.choice([2, 4]))
+            sm["ov"] = rand_override(rng, sm)
+            sib = {"same_base": False, "m": sm}
+        else:
+            sib = {"same_base": True, "ov": rand_override(rng, m)}
+        cases.append({"m": m, "rep": rep, "ovrs": "all", "warm": rng.choice(WARMS), "sib": sib})
     return cases
 
 
@@ -445,6 +457,25 @@ def aug_prepare(case):
         rec["allsub"], rec["ovrs"] = 1, [["initial"]]
     else:
         rec["allsub"], rec["ovrs"] = 0, [list(o) for o in case["ovrs"]]
+    sib = case.get("sib") or {"same_base": True, "ov": m["ov"]}
+    if sib["same_base"]:
+        sb, sov = b, sib["ov"]
+        srec = dict(rec, ov=sov)
+    else:
+        sm = sib["m"]
+        sb, sgclass, sginst, _ = make_base(sm, case["rep"], random.Random(digest(sm)))
+        sov = sm["ov"]
+        srec = {k: sm[k] for k in MDPF}
+        srec.update(gclass=sgclass, ginst=sginst, tab=tab, ov=sov)
+        if tab:
+            srec["slist"] = [sb.sidx(s) + 1 for s in sb.mdp.state_list]
+            srec["alist"] = [sb.aidx(a) + 1 for a in sb.mdp.action_list]
+        else:
+            srec["slist"], srec["alist"] = [], []
+    rec["cls"] = srec["cls"] = case["rep"]["kind"]
+    srec = {k: v for k, v in srec.items() if k not in ("sib", "allsub", "ovrs", "warm")}
+    rec["sib"] = srec
+    b.sib = (sb, sov)
     return b, tab, rec
 
 
@@ -452,9 +483,12 @@ def aug_real(b, tab, m, ovr, d=None):
     from msdm.core.semimdp.option import augment
     try:
         dm = augment(b.mdp, **aug_kwargs(b, m["ov"], ovr))
+        sb, sov = b.sib
+        dm2 = augment(sb.mdp, **aug_kwargs(sb, sov, ovr))      # a second derived MDP; the first is read only now
     except Exception as e:                                           # noqa: BLE001
         return {"error": f"{type(e).__name__}: {e}"[:300]}
     out = project_mdp(dm, b, tab)
+    out["second"] = project_mdp(dm2, sb, tab)
     # arrays are defined when the derived lists hold every state and action (then every successor can be indexed)
     full = bool(tab and d is not None and sorted(d["state_list"]) == list(range(1, m["N"] + 1))
                 and sorted(d["action_list"]) == list(range(1, m["K"] + 1)))
@@ -499,8 +533,13 @@ def judge_aug(ctx, cases, tamper=None):
                 sig = discount_signature("augment", r, real)
             else:
                 sig = f"C15:augment:{comp}:{'overridden' if comp in ovr else 'not-preserved'}"
-            ctx.violation(sig, f"augment(overrides={ovr}) on a {c['rep']['kind']} base: {msg}",
+            ctx.violation(sig, f"augment(overrides={ovr}) on a {c['rep']['kind']} base, read after a second MDP was derived "
+                               f"with the same set of overrides: {msg}",
                           {"part": "aug", "case": dict(c, ovrs=[ovr])})
+        for comp, msg in compare_components(real["second"], r["d2"], c["m"], tab):
+            bad.append((comp, msg))
+            ctx.violation(f"C15:augment:{comp}:second-derived-mdp", f"second MDP derived with overrides={ovr} while the first is "
+                          f"alive ({c['rep']['kind']} base): {msg}", {"part": "aug", "case": dict(c, ovrs=[ovr])})
         vbad = compare_views(real["views"], r["views"], c["m"])
         for view, msg in vbad:
             ctx.violation(f"C15:augment:array-view:{view}", f"augment(overrides={ovr}) on a {c['rep']['kind']} base "
@@ -576,7 +615,12 @@ def make_plan_cases(rng, n, tier):
             rep["gclass"] = rng.choice([g for g in [(1, 2), (3, 4), (1, 1)] if F(*g) != F(f["GN"], f["GD"])])
         if not rep["explicit_list"] and (not gen.ghost_closed(m) or set(inis) - gen.reach(m) or set(sub) - gen.reach(m)):
             rep["explicit_list"] = True
-        cases.append({"m": m, "rep": rep, "o": o, "warm": rng.choice(WARMS)})
+        sub2 = sorted(rng.sample(range(N), rng.choice([1, 1, 2]) if N > 2 else 1))
+        if sub2 == sub:
+            sub2 = [(sub[0] + 1) % N]
+        o2 = {"sub": sub2, "inis": rng.sample(range(N), rng.randint(1, N)), "incl": rng.choice([0, 1]),
+              "clip": rng.choice([None, -1, 0, 2]), "subgoals_as": "list"}
+        cases.append({"m": m, "rep": rep, "o": o, "warm": rng.choice(WARMS), "o2": o2})
     return cases
 
 
@@ -589,17 +633,38 @@ def plan_real(case):
     subl = [b.slabel[s] for s in o["sub"]]
     out = {"gclass": gclass, "ginst": ginst}
     warm_base(b.mdp, case.get("warm", "none"), tab)
-    try:
-        opt = PlanToSubgoalOption(
-            mdp=b.mdp, initial_states=[b.slabel[s] for s in o["inis"]],
-            subgoals=(subl if o["subgoals_as"] == "list" else set(subl)),
+    def summary(pr):
+        listed = [b.sidx(s) for s in b.mdp.state_list]
+        V, Q = {}, {}
+        for s in listed:
+            V[s] = float(pr.state_value[b.slabel[s]])
+            Q[s] = {a: float(pr.action_value[b.slabel[s]][b.alabel[a]]) for a in range(m["K"]) if m["avail"][s][a]}
+        return {"V": V, "Q": Q, "initial_value": float(pr.initial_value), "iterations": int(pr.iterations),
+                "converged": bool(pr.converged)}
+
+    def make(oo, name):
+        sl = [b.slabel[s] for s in oo["sub"]]
+        return PlanToSubgoalOption(
+            mdp=b.mdp, initial_states=[b.slabel[s] for s in oo["inis"]],
+            subgoals=(sl if oo["subgoals_as"] == "list" else set(sl)),
             planner=ValueIteration(max_residual=1e-10, max_iterations=4000),
-            include_mdp_absorbing_states=bool(o["incl"]), name="g", max_steps=50,
-            max_nonterminal_pseudoreward=(float("inf") if o["clip"] is None else float(o["clip"])))
-        out["sub_task"] = project_mdp(opt.sub_task, b, 1)
+            include_mdp_absorbing_states=bool(oo["incl"]), name=name, max_steps=50,
+            max_nonterminal_pseudoreward=(float("inf") if oo["clip"] is None else float(oo["clip"])))
+    try:
+        # two sub-goal options on one base, both sub-tasks built before either is read
+        opt = make(o, "g")
+        opt2 = make(case.get("o2") or o, "g2")
+        held = opt.sub_task
+        held2 = opt2.sub_task
+        out["sub_task"] = project_mdp(held, b, 1)
+        out["second"] = project_mdp(held2, b, 1)
         with warnings.catch_warnings():
             warnings.simplefilter("ignore")
-            out["views"] = project_views(opt.sub_task, b, True)
+            out["views"] = project_views(held, b, True)
+            try:
+                out["held_plan"] = summary(opt.planner.plan_on(held))
+            except Exception as e:                                   # noqa: BLE001
+                out["held_plan"] = {"error": f"{type(e).__name__}: {e}"[:300]}
     except Exception as e:                                           # noqa: BLE001
         out["sub_task"] = {"error": f"{type(e).__name__}: {e}"[:300]}
         return out
@@ -607,13 +672,7 @@ def plan_real(case):
         with warnings.catch_warnings():
             warnings.simplefilter("ignore")
             pr = opt.planning_result
-        listed = [b.sidx(s) for s in b.mdp.state_list]
-        V, Q = {}, {}
-        for s in listed:
-            V[s] = float(pr.state_value[b.slabel[s]])
-            Q[s] = {a: float(pr.action_value[b.slabel[s]][b.alabel[a]]) for a in range(m["K"]) if m["avail"][s][a]}
-        out["plan"] = {"V": V, "Q": Q, "initial_value": float(pr.initial_value), "iterations": int(pr.iterations),
-                       "converged": bool(pr.converged)}
+        out["plan"] = summary(pr)
     except Exception as e:                                           # noqa: BLE001
         out["plan"] = {"error": f"{type(e).__name__}: {e}"[:300]}
     return out
@@ -639,7 +698,10 @@ def judge_plan(ctx, cases, tamper=None):
         rec = {k: m[k] for k in MDPF}
         rec.update(gclass=gclass, ginst=ginst, tab=1, slist=list(range(1, m["N"] + 1)), alist=list(range(1, m["K"] + 1)),
                    sub=[s + 1 for s in o["sub"]], inis=[s + 1 for s in o["inis"]], incl=o["incl"],
-                   clip=[1, 0] if o["clip"] is None else [o["clip"], 1], warm=c.get("warm", "none"))
+                   clip=[1, 0] if o["clip"] is None else [o["clip"], 1], warm=c.get("warm", "none"), cls=kind)
+        o2 = c.get("o2") or o
+        rec["sib"] = dict(rec, sub=[s + 1 for s in o2["sub"]], inis=[s + 1 for s in o2["inis"]], incl=o2["incl"],
+                          clip=[1, 0] if o2["clip"] is None else [o2["clip"], 1])
         batch.append(rec)
     res = tlc(ctx, "plan", "plan", batch, "plan: sub-task machine + exact optimum of the derived instance")
     by = {r["iid"]: r for r in res.records}
@@ -693,46 +755,52 @@ def judge_plan(ctx, cases, tamper=None):
         if r["cachediffers"]:
             ctx.nontrivial("plan-history:" + digest(c))
             ctx.count("plan_derived_views_differ_from_views_cached_on_the_base")
-        pl = real.get("plan")
-        if pl is None:
-            continue
+        for comp, msg in compare_components(real.get("second", {}), r["d2"], m, 1,
+                                            comps=["discount", "initial", "actions", "next", "reward", "absorbing"],
+                                            support_only=(c["rep"]["kind"] == "matrices")) if "second" in real else []:
+            ok = False
+            ctx.violation(f"C15:{site}:{comp}:second-option", f"sub-task of a second option (subgoals {c.get('o2', o)['sub']}) on the "
+                          f"same {c['rep']['kind']} base: {msg}", rc)
+        eps = 1e-10
+        tol = (eps / (1 - float(g)) if g < 1 else eps * float(frac(r["nmax"]) or 1)) if r["judge"] else 0.0
+        vstar = [frac(x) for x in r["v"]]
+        dabs = d["absorbing"]
+
+        def value_mismatch(pl):
+            for s, v in pl["V"].items():
+                if not close(v, vstar[s], tol):
+                    return f"state_value[{s}] = {v} but the optimum of the sub-task with the base's discount {float(g)} is {float(vstar[s])}"
+                if dabs[s]:
+                    continue
+                for a, q in pl["Q"][s].items():
+                    qs = frac(r["q"][s][a])
+                    if qs is not None and not close(q, qs, tol):
+                        return f"action_value[{s}][{a}] = {q} but Q* of the sub-task is {float(qs)}"
+            ev = sum(F(1, len(o["inis"])) * vstar[s] for s in o["inis"])
+            if not close(pl["initial_value"], ev, tol):
+                return f"initial_value = {pl['initial_value']} but the optimum over the uniform initiation set is {float(ev)}"
+            return None
         if not r["judge"]:
             ctx.skip("plan: undiscounted derived instance without a finite optimum for every policy (not judged)")
             continue
-        psite = "PlanToSubgoalOption.planning_result"
-        if "error" in pl:
-            sig = discount_signature(psite, r, st) if disc_bad else f"C15:{psite}:raises"
-            ctx.violation(sig, f"planning_result raised {pl['error']}", rc)
-            continue
-        if not pl["converged"] and not disc_bad:
-            ctx.skip("plan: planner stopped by its iteration cap (values not judged)")
-            continue
-        eps = 1e-10
-        tol = eps / (1 - float(g)) if g < 1 else eps * float(frac(r["nmax"]) or 1)
-        vstar = [frac(x) for x in r["v"]]
-        dabs = d["absorbing"]
-        vbad = None
-        for s, v in pl["V"].items():
-            if not close(v, vstar[s], tol):
-                vbad = f"state_value[{s}] = {v} but the optimum of the sub-task with the base's discount {float(g)} is {float(vstar[s])}"
-                break
-            if dabs[s]:
+        for key, psite in (("plan", "PlanToSubgoalOption.planning_result"), ("held_plan", "PlanToSubgoalOption.sub_task:planned-after-second-option")):
+            pl = real.get(key)
+            if pl is None:
                 continue
-            for a, q in pl["Q"][s].items():
-                qs = frac(r["q"][s][a])
-                if qs is not None and not close(q, qs, tol):
-                    vbad = f"action_value[{s}][{a}] = {q} but Q* of the sub-task is {float(qs)}"
-                    break
+            if "error" in pl:
+                ok = False
+                sig = discount_signature(psite, r, st) if disc_bad else f"C15:{psite}:raises"
+                ctx.violation(sig, f"planning raised {pl['error']}", rc)
+                continue
+            if not pl["converged"] and not disc_bad:
+                ctx.skip("plan: planner stopped by its iteration cap (values not judged)")
+                continue
+            vbad = value_mismatch(pl)
             if vbad:
-                break
-        if vbad is None:
-            ev = sum(F(1, len(o["inis"])) * vstar[s] for s in o["inis"])
-            if not close(pl["initial_value"], ev, tol):
-                vbad = f"initial_value = {pl['initial_value']} but the optimum over the uniform initiation set is {float(ev)}"
-        if vbad:
-            sig = discount_signature(psite, r, st) if disc_bad else f"C15:{psite}:value"
-            ctx.violation(sig, f"{vbad} (subgoals {o['sub']}, clip {o['clip']}, {c['rep']['kind']} base)", rc)
-            ok = False
+                sig = discount_signature(psite, r, st) if disc_bad else f"C15:{psite}:value"
+                ctx.violation(sig, f"{vbad} (subgoals {o['sub']}, clip {o['clip']}, {c['rep']['kind']} base)", rc)
+                ok = False
+        pl = real.get("plan") or {}
         if ok:
             ctx.validated += 1
         nonabs = [s for s in range(N) if not dabs[s]]
@@ -740,7 +808,7 @@ def judge_plan(ctx, cases, tamper=None):
             ctx.nontrivial("plan:" + digest(c))
         if i % 37 == 1:
             ctx.sample(limit=2, obj={"part": "plan", "rep": c["rep"], "option": o, "discount": [m["GN"], m["GD"]],
-                        "vstar": [str(x) for x in vstar], "real_V": pl["V"], "real_discount": st.get("discount")})
+                        "vstar": [str(x) for x in vstar], "real_V": pl.get("V"), "real_discount": st.get("discount")})
     return res
 
 
@@ -876,7 +944,7 @@ def make_opt_cases(rng, n, tier):
     cases = []
     while len(cases) < n:
         i = len(cases)
-        GN, GD = [(1, 2), (3, 4), (1, 1), (9, 10)][i % 4]
+        GN, GD = rng.choice([(1, 2), (3, 4), (1, 1), (9, 10), (0, 1), (0, 1)])
         m = gen.rand_mdp(rng, n_na=rng.choice([1, 2, 2, 3]), n_abs=rng.choice([0, 1, 1]), K=rng.choice([1, 2, 2]),
                          PD=rng.choice([2, 2, 4]), GN=GN, GD=GD, rewards=(-2, -1, 0, 1, 3), ID=2)
         N = m["N"]
@@ -949,7 +1017,7 @@ def opt_real(case, rec):
 def opt_batch_record(c):
     m = c["m"]
     rec = {k: m[k] for k in MDPF}
-    rec.update(term=[s + 1 for s in c["term"]], pol=c["pol"], lim=c["lim"],
+    rec.update(term=[s + 1 for s in c["term"]], pol=c["pol"], lim=c["lim"], hmax=c["lim"],
                starts=[s + 1 for s in c.get("starts", range(m["N"]))])
     return rec
 
@@ -1041,11 +1109,42 @@ TRACE_REPS = [
 ]
 
 
+def make_corridor_case(rng, i):
+    """A long (slippery) corridor: the option walks 25..60 cells to the far end, i.e. for more primitive steps
+    than any discount power stays above float resolution (discounts 1/2, 1/4, 0) - end state and duration are
+    exact clauses, the return is exact up to the bound TLC derives for the steps beyond its exact horizon."""
+    L = rng.randint(25, 60)
+    N, K, PD = L + 1, rng.choice([1, 2]), rng.choice([2, 4])
+    GN, GD = [(1, 2), (1, 4), (0, 1), (1, 1), (1, 2), (1, 4)][i % 6]
+    fwd = rng.choice([PD, PD - 1, PD // 2])
+    P = [[[0] * N for _ in range(K)] for _ in range(N)]
+    R = [[[rng.choice((-3, -2, -1, 0, 1, 2)) for _ in range(N)] for _ in range(K)] for _ in range(N)]
+    for s in range(N):
+        nxt = min(s + 1, L)
+        P[s][0][nxt] += fwd
+        P[s][0][s] += PD - fwd
+        if K == 2:
+            P[s][1][max(s - 1, 0)] += 1
+            P[s][1][s] += PD - 1
+    m = {"N": N, "K": K, "PD": PD, "GN": GN, "GD": GD, "ID": 2, "abs": [0] * L + [rng.choice([0, 1])],
+         "avail": [[1] * K for _ in range(N)], "P": P, "R": R, "p0": [2] + [0] * L}
+    rep = dict(TRACE_REPS[i % len(TRACE_REPS)])
+    if rep["kind"] == "subclass_inst" and (GN, GD) == (1, 1):
+        rep["gclass"] = (3, 4)
+    lim = 8 * L * PD // fwd
+    opt = {"type": "simple", "name": "walk", "term": [L], "inits": list(range(N)), "lim": lim,
+           "pol": [[3, 1][:K] for _ in range(N)], "term_as": rng.choice(["set", "list"])}
+    return {"m": m, "rep": rep, "opts": [opt], "n": rng.choice([1, 2, 3]), "seed": rng.choice([None, 0, 7]),
+            "inclprim": rng.choice([0, 1]), "queries": [[0, 0]] + ([[rng.randrange(1, L // 3), 0]] if rng.random() < 0.4 else []),
+            "corridor": L}
+
+
 def make_trace_cases(rng, n, tier):
-    cases = []
+    cases = [make_corridor_case(rng, i) for i in range(12 if tier == "quick" else 72)]
+    n += len(cases)
     while len(cases) < n:
         i = len(cases)
-        GN, GD = [(1, 2), (1, 1), (3, 4), (1, 2), (1, 1), (9, 10), (1, 2)][i % 7]
+        GN, GD = [(1, 2), (1, 1), (3, 4), (1, 2), (1, 1), (9, 10), (0, 1)][i % 7]
         m = gen.rand_mdp(rng, n_na=rng.choice([2, 3, 4, 5]), n_abs=rng.choice([0, 1, 2]), K=rng.choice([1, 2, 3]),
                          PD=rng.choice([2, 4]), GN=GN, GD=GD, rewards=(-3, -2, -1, 0, 1, 2), ID=rng.choice([2, 4]))
         N = m["N"]
@@ -1210,11 +1309,19 @@ def trace_real(case):
     return obs
 
 
+def trace_hmax(m, lim):
+    """Number of leading steps whose discounted rewards TLC tracks exactly (gamma^k inside 30 bits)."""
+    if m["GN"] == 0:
+        return min(lim, 1)          # later terms are exactly 0
+    return lim if m["GN"] == m["GD"] else min(lim, TMAX[m["GD"]])
+
+
 def trace_record(case, ob):
     m = case["m"]
     od = case["opts"][ob["oi"]]
     rec = {k: m[k] for k in MDPF}
-    rec.update(term=[s + 1 for s in od["term"]], pol=ob["pol"], lim=od["lim"], n=case["n"], s0=ob["s0"] + 1,
+    rec.update(term=[s + 1 for s in od["term"]], pol=ob["pol"], lim=od["lim"], hmax=trace_hmax(m, od["lim"]),
+               n=case["n"], s0=ob["s0"] + 1,
                sims=ob["sims"], outcome=ob["outcome"] if ob["outcome"] != "error" else "dist",
                oinit=[[s + 1 for s in o["inits"]] for o in case["opts"]], inclprim=case["inclprim"])
     return rec
@@ -1287,11 +1394,11 @@ def judge_trace(ctx, cases, tamper=None, reals=None):
                                     f"({r['nst']} steps, limit {r['lim']}): {ob['sims'][j - 1] if j <= len(ob['sims']) else None}")
         elif ob["outcome"] == "dist":
             n = c["n"]
-            if k % 9 == 0:      # machinery cross-check of the tally
+            if k % 9 == 0 or c.get("corridor"):      # machinery cross-check of the tally
                 g = F(m["GN"], m["GD"])
                 tl = {}
                 for s in ob["sims"]:
-                    key = (s["fin"], len(s["ev"]), sum(g ** t * e[3] for t, e in enumerate(s["ev"])))
+                    key = (s["fin"], len(s["ev"]), sum(g ** t * e[3] for t, e in enumerate(s["ev"][:trace_hmax(m, od["lim"])])))
                     tl[key] = tl.get(key, 0) + 1
                 tt = {(x["e"], x["t"], frac(x["r"])): x["c"] for x in r["joint"]}
                 if tl != tt:
@@ -1301,7 +1408,18 @@ def judge_trace(ctx, cases, tamper=None, reals=None):
             tot = sum(x[3] for x in ob["joint"])
             if not close(tot, 1, 1e-12):
                 fail(site, "not-normalised", f"probabilities sum to {tot}")
-            msg = match_outcomes(ob["joint"], r["joint"], 3, n)
+            tail = float(frac(r["tail"]))       # bound on the return of the steps beyond TLC's exact horizon (0 if none)
+            if tail == 0:
+                msg = match_outcomes(ob["joint"], r["joint"], 3, n)
+            else:       # end state and duration exact, return within the bound; probabilities judged on the marginals
+                ctx.count("trace_queries_with_runs_beyond_the_exact_horizon")
+                msg = None
+                for y in ob["joint"]:
+                    if not any(x["e"] == y[0] and x["t"] == y[1] and close(y[2], frac(x["r"]), tail) for x in r["joint"]):
+                        msg = f"outcome {y[:3]} (end state, steps, return) occurred in no simulation (return tolerance {tail})"
+                for x in r["joint"]:
+                    if not any(x["e"] == y[0] and x["t"] == y[1] and close(y[2], frac(x["r"]), tail) for y in ob["joint"]):
+                        msg = f"outcome {x} of the simulations is missing from {ob['joint']}"
             if msg:
                 fail(site, "differs-from-simulations", msg)
             oth = ob["other"]
@@ -1319,7 +1437,7 @@ def judge_trace(ctx, cases, tamper=None, reals=None):
                 fail(f"{SM}.expected_cumulative_reward", "raises", oth["exp"]["error"])
             elif not oth["exp_same_sims"]:
                 fail(f"{SM}.run_simulations", "not-reproducible-for-seed", "expected_cumulative_reward ran different simulations")
-            elif not close(oth["exp"], frac(r["exp"]), 1e-12):
+            elif not close(oth["exp"], frac(r["exp"]), tail + 1e-12):
                 fail(f"{SM}.expected_cumulative_reward", "differs-from-simulations",
                      f"{oth['exp']} but the mean discounted return of the simulations is {float(frac(r['exp']))}")
             rs = oth["run_simulations"]
@@ -1379,6 +1497,11 @@ def asbuilt_runs(ctx, aug_cases, opt_cases):
         res = tlc(ctx, "opt_asbuilt", "opt", [opt_batch_record(c) for c in oc],
                   "opt, former as-built variant (raise when len(trajectory) >= max_steps), MC only: expected counterexample", variant="asbuilt")
         info["opt"] = sorted(set(res.violated))
+    if aug_cases:
+        batch = [aug_prepare(dict(c, ovrs=[["reward", "absorbing"]]))[2] for c in aug_cases[:2]]
+        res = tlc(ctx, "aug_shared", "aug", batch, "aug, variant with one class shared per (base class, overridden set), MC only: "
+                  "expected counterexample to DerivedIsolated", variant="sharedclass")
+        info["aug_sharedclass"] = sorted(set(res.violated))
     ctx.extra["former_asbuilt_model_violates"] = info
 
 
